@@ -727,4 +727,144 @@ def _guard_type_copy(ctx, res):
                  "copying a type into the same workspace collides with the original")
 
 
-RULES = [rule_own, rule_xkind, rule_effect, rule_guard]
+def _writes_key(ev, obj, key) -> bool:
+    """The event sets, replaces or removes the entry `key` of the local dictionary `obj` (whatever was there before is gone)."""
+    if ev.maybe:
+        return False
+    if ev.kind in ("store", "del") and isinstance(ev.expr, ast.Subscript) and _t(ev.expr.value) == obj:
+        return isinstance(ev.expr.slice, ast.Constant) and ev.expr.slice.value == key
+    if ev.kind == "obj" and _t(ev.expr) == obj:
+        return True  # a new dictionary
+    if ev.kind == "call" and isinstance(ev.expr.func, ast.Attribute) and _t(ev.expr.func.value) == obj:
+        c = ev.expr
+        if c.func.attr == "clear":
+            return True
+        if c.func.attr == "pop":
+            return bool(c.args) and isinstance(c.args[0], ast.Constant) and c.args[0].value == key
+        if c.func.attr == "update":
+            return any(k.arg == key for k in c.keywords) or any(isinstance(a, ast.Dict) and any(isinstance(k, ast.Constant) and k.value == key for k in a.keys) for a in c.args)
+    return False
+
+
+def rule_fresh(ctx) -> RuleResult:
+    res = RuleResult(
+        "C06.FRESH",
+        "C06",
+        "a copy made in a loop gets arguments of its own: the 'uid' entry of the dictionary handed to the creation call is decided within the "
+        "same turn of the loop on every path (a new dictionary, or the entry set / removed), never inherited from the previous turn",
+        floor=1,
+    )
+    p = ctx.p
+    for spec, creators in (("Workspace.copy_to_parent", ("create_entity",)), ("Workspace.copy_property_groups", ("find_or_create_property_group",))):
+        fn = p.func(spec)
+        sites = {}
+        for path in _paths(ctx, fn, boring=_no_lookup, tag="lookup"):
+            for made in path.trace:
+                if not (made.kind == "call" and call_name(made.expr) in creators):
+                    continue
+                # local dictionaries handed over: **d, name=d, **{"name": d}
+                vals = list(made.expr.args) + [k.value for k in made.expr.keywords]
+                vals += [v for x in vals if isinstance(x, ast.Dict) for v in x.values]
+                objs = sorted({x.id for x in vals if isinstance(x, ast.Name) and x.id in path.objdefs})
+                start = path.iteration_of(made)
+                for obj in objs:
+                    s = sites.setdefault((id(made.node), obj), {"ev": made, "ok": True, "loop": False})
+                    if start is None:
+                        continue  # not in a loop: one copy per call
+                    s["loop"] = True
+                    i = next(k for k, e in enumerate(path.trace) if e is made)
+                    s["ok"] &= any(_writes_key(e, obj, "uid") for e in path.trace[start:i])
+                if not objs:
+                    sites.setdefault((id(made.node), ""), {"ev": made, "ok": True, "loop": start is not None})
+        if not sites:
+            raise AnalysisError(f"{spec}: the call that creates the copy was not found")
+        for (_, obj), s in sites.items():
+            what = "inside a loop: the uid entry of its arguments is decided in every turn" if s["loop"] else "not in a loop"
+            res.inst(f"{spec}: creation at line {s['ev'].lineno} {what}", nontrivial=s["loop"], ok=s["ok"])
+            if not s["ok"]:
+                res.find("Workspace", fn.name, "arguments of the copy are carried over from the previous turn of the loop", f"{fn.module.relpath}:{s['ev'].lineno}",
+                         "the dictionary handed to the creation call outlives one turn of the loop and nothing in the turn resets its 'uid' entry on the path "
+                         "where the identifier is taken: the uid kept for an earlier copy is passed for a later one, which is then merged with / refused as the earlier")
+    return res
+
+
+def rule_typekind(ctx) -> RuleResult:
+    res = RuleResult(
+        "C06.TYPEKIND",
+        "C06",
+        "a type handed back for re-use is looked up among the types of the REQUESTING class: Workspace.find_type answers only an instance of the "
+        "class it is given, EntityType.find gives it cls, and find_or_create returns either such a find for cls or a newly constructed cls(..)",
+        floor=3,
+    )
+    p = ctx.p
+
+    def strip(v):
+        while isinstance(v, ast.Call) and call_name(v) == "cast" and len(v.args) == 2:
+            v = v.args[1]
+        return v
+
+    def restricted_to(v, k, workspace=None):
+        """v is `X.find_type(uid, k)` (or `k.find(X, uid)`): a look-up that answers instances of k only."""
+        v = strip(v)
+        if not isinstance(v, ast.Call) or not isinstance(v.func, ast.Attribute):
+            return False
+        if v.func.attr == "find_type":
+            kw = {x.arg: x.value for x in v.keywords}
+            given = v.args[1] if len(v.args) > 1 else kw.get("type_class")
+            return given is not None and _t(given) == k
+        return v.func.attr == "find" and _t(v.func.value) == k
+
+    # 1. Workspace.find_type: whatever it returns (other than None) is an instance of the class asked for
+    ft = p.func("Workspace.find_type")
+    if len(ft.params) < 3:
+        raise AnalysisError("Workspace.find_type: parameters (uid, class) not found")
+    klass = ft.params[2]
+    ok, n = True, 0
+    for path in _paths(ctx, ft):
+        if path.end != "return" or path.value is None:
+            continue
+        ret = next((e for e in reversed(path.trace) if e.kind == "return"), None)
+        for v, sel in _alternatives(path.value):
+            if isinstance(v, ast.Constant) and v.value is None:
+                continue
+            n += 1
+            facts = list(sel) + (path.conds_before(ret) if ret is not None else [])
+            ok &= any(pol and isinstance(c, ast.Call) and call_name(c) == "isinstance" and len(c.args) == 2 and _t(c.args[0]) == _t(v) and _t(c.args[1]) == klass
+                      for c, pol in facts)
+    res.inst("Workspace.find_type returns the registered type only when it is an instance of the class asked for", nontrivial=True, ok=ok and n > 0)
+    if not (ok and n):
+        res.find("Workspace", "find_type", "a type is returned without the test of its class", ft.where,
+                 "a look-up for a group type answers the data / object type that owns the uid: entities of different kinds share one type")
+    # 2. every find / find_or_create of the EntityType family
+    et = p.cls("EntityType")
+    seen = 0
+    for K in [c for c in p.classes if et in c.mro]:
+        for mname in ("find", "find_or_create"):
+            fn = K.methods.get(mname)
+            if fn is None:
+                continue
+            if fn.kind != "classmethod" or not fn.params:
+                raise AnalysisError(f"{fn.qualname}: expected a classmethod")
+            k = fn.params[0]
+            ok, n = True, 0
+            for path in _paths(ctx, fn):
+                if path.end != "return" or path.value is None:
+                    continue
+                for v, _ in _alternatives(path.value):
+                    if isinstance(v, ast.Constant) and v.value is None:
+                        continue
+                    n += 1
+                    built = isinstance(strip(v), ast.Call) and _t(strip(v).func) == k
+                    ok &= restricted_to(v, k) or (mname == "find_or_create" and built)
+            seen += 1
+            res.inst(f"{fn.qualname}: an existing type is returned only from a look-up restricted to {k}", nontrivial=True, ok=ok and n > 0)
+            if not (ok and n):
+                res.find(K.name, mname, "existing type returned from a look-up that is not restricted to the requesting class", fn.where,
+                         "the uid of a type of another kind (data / group / object share one registry) is answered with that foreign type instead of being "
+                         "refused by the registration: two kinds of entities share one type and one identifier")
+    if seen < 2:
+        raise AnalysisError("EntityType.find / find_or_create not found")
+    return res
+
+
+RULES = [rule_own, rule_xkind, rule_effect, rule_guard, rule_fresh, rule_typekind]
